@@ -180,7 +180,8 @@ func (qc queueCaller) PipelineRecv(ctx context.Context, transform []capnp.Pipeli
 			path:  clientPathFromTransform(transform),
 			Recv:  r,
 		})
-		basis := len(qc.aq.q) - 1
+		// fulfill puts the result of q[i] into bases[i+1].
+		basis := len(qc.aq.q)
 		qc.aq.mu.Unlock()
 		return queueCaller{aq: qc.aq, basis: basis}
 	}
